@@ -91,6 +91,35 @@ def asBytes : T → Option (List UInt8)
 def asStr (t : T) : Option String :=
   (asBytes t).map fun bs => String.ofList (bs.map fun b => Char.ofNat b.toNat)
 
+/-- decode UTF-8 (valid sequences only) -/
+def utf8Decode : List UInt8 → Option (List Char)
+  | [] => some []
+  | b0 :: rest =>
+    let n0 := b0.toNat
+    if n0 < 0x80 then (utf8Decode rest).map (Char.ofNat n0 :: ·)
+    else if n0 < 0xC0 then none
+    else if n0 < 0xE0 then
+      (match rest with
+       | b1 :: r => if b1.toNat / 64 == 2 then (utf8Decode r).map (Char.ofNat ((n0 % 32) * 64 + b1.toNat % 64) :: ·) else none
+       | _ => none)
+    else if n0 < 0xF0 then
+      (match rest with
+       | b1 :: b2 :: r =>
+         if b1.toNat / 64 == 2 && b2.toNat / 64 == 2 then
+           (utf8Decode r).map (Char.ofNat ((n0 % 16) * 4096 + (b1.toNat % 64) * 64 + b2.toNat % 64) :: ·) else none
+       | _ => none)
+    else
+      (match rest with
+       | b1 :: b2 :: b3 :: r =>
+         if b1.toNat / 64 == 2 && b2.toNat / 64 == 2 && b3.toNat / 64 == 2 then
+           (utf8Decode r).map (Char.ofNat ((n0 % 8) * 262144 + (b1.toNat % 64) * 4096 + (b2.toNat % 64) * 64 + b3.toNat % 64) :: ·) else none
+       | _ => none)
+
+/-- `x<hex>` atom holding UTF-8 → characters -/
+def asChars (t : T) : Option (List Char) := (asBytes t).bind utf8Decode
+
+def ofChars (cs : List Char) : T := .atom ("x" ++ hex (String.ofList cs).toUTF8.toList)
+
 def asInt : T → Option Int
   | .atom s => s.toInt?
   | _ => none
